@@ -101,8 +101,10 @@ def propagated_call(ctx, body, call, rule, what):
 def ok_defs(body):
     """[(bb, term)] whole defs of _0 that are not error values"""
     out = []
+    slots = q.result_slots(body)
+    ho = q._handoffs(body)
     for d in q.defs_in(body, body.cfg.reach):
-        if d[0] == 0 and not d[1]:
+        if d[0] in slots and not d[1] and (d[3], d[0]) not in ho:
             for a in alts(d[2]):
                 if not q.is_err_term(a):
                     out.append((d[3], a))
